@@ -25,6 +25,22 @@ Resample}.lean, run through Drivers/C19.lean) and the code in /repo's working tr
       (bit-equal in the linear branch), psd.get_freq_oct (exact / approximate, three trims, anchors),
       dsp.resample FIR taps and output incl. constants and integer / float32 / list storage of the data.
 
+  exact, added with the complete fixtime model (Model/FixtimeFull.lean, FixtimeSr.lean, FixtimeDespike.lean)
+    * dsp.fixtime with EVERY option (sr numeric or 'auto', dropval, deldrops, delouttimes, delspikes = True | dict with
+      method despike_diff / despike / simple, base, hold_previous_value, previous_value_tol, getall): returned times,
+      returned samples (as positions in the sorted record), fixinfo.alldrops.{dropouts, outtimes, spikes, alldrops},
+      fixinfo.sr_stats, fixinfo.tp, despike_info.niter, the two _check_dt_size warnings   vs fixtimeFull
+    * dsp._sr_calcs (what sr='auto' chooses), dsp._del_loners                               vs srCalcs, delLoners
+    * dsp.exclusive_sgfilter, dsp.despike, dsp.despike_diff called directly: s.pv, s.niter, s.x = x[~pv]
+                                                                                             vs sgFilter, despike, despikeDiff
+      (a decision within 1e-9 of its threshold is skipped, except in the stream of DESIGNED ties: flat integer background,
+      window of 2^k + 1 points, integer threshold_value - every statistic of the code is exact there and `>` vs `>=` shows)
+    * psd.psdmod's last step (row maxima of the returned map, bit-equal), dsp.resample's storage types (dtype of the mean,
+      of the result and of the FIR taps for int16/int32/int64/uint8/bool/list/float32/float64 data)
+  translator harness/translate/c19_consts.py (Python `ast`, no execution): every literal, default argument and comparison
+    operator of the anchored routines the models depend on -> Generated/C19Consts.lean, with `decide` obligations in
+    Props/C19Consts.lean (a changed constant / operator stops the Lean build).
+
 The model-free oracle (`search`) restates the property on the public API only.
 """
 import ast
@@ -89,6 +105,13 @@ TRUSTED = [
     "plain Python (they cannot be called from outside rescale); rescale as a whole is compared numerically as well",
     "which samples are drop-outs (nan / inf / within 1 % of dropval) is an input of the bookkeeping model, computed by the harness",
     "IEEE rounding of the log/exp/sqrt/sin/pow/log2 kernels; float results are compared numerically, never proved",
+    "translator harness/translate/c19_consts.py (Python ast; structural patterns with literal / operator capture)",
+    "pandas value_counts(): most frequent value first, equally frequent values in order of first appearance - modelled "
+    "(modeFirst), re-measured every run through the sr-calcs stream",
+    "the despiker's flags enter the fixtime model from the Lean despike models (Model/FixtimeDespike.lean), which decide "
+    "`delta > fmax(sigma*std, min_limit)` on squares (exact over the rationals; despike_decision_rule); the code's float "
+    "statistics agree except within rounding of a tie",
+    "scipy.signal.welch / dsp.waterfall inside psdmod: library kernels, the map they produce is an input of the model",
 ]
 RULE = (
     "a case is one call of a routine compared with the model: (told, tnew) pairs on dyadic grids with ties, "
@@ -98,7 +121,12 @@ RULE = (
     "points, length mismatch, half-step span); (n, p, q, pts, axis, storage dtype) for resample; specifications with 2-7 break "
     "points and slopes including exactly -1, the 1e-8 tolerance band and the former 1e-5 band; (P, F, freq|n_oct, extendends) "
     "for rescale over linear/log/tolerance-linear/nearly-linear scales (one step off by 1e-13 ... 1e-3 relative); centre "
-    "scales for the band edges; (n, frange, exact, trim, anchor) for get_freq_oct. non-trivial = the case reaches a "
+    "scales for the band edges; (n, frange, exact, trim, anchor) for get_freq_oct; fixtime records x every option "
+    "(sr numeric dyadic / not dyadic / 'auto', base inside / outside / far away, dropval default / given / 0 / nan with samples "
+    "0.5 % and 2 % off, delspikes False / True / dict(method, n, sigma, maxiter, threshold_value | threshold_sigma, "
+    "exclude_point) on flat-with-spikes and noisy data); time-step vectors for _sr_calcs (dyadic, decimal, slow rates, "
+    "equal times); flag vectors x window for _del_loners; (x, n, sigma, maxiter, thresholds, exclude_point) for the "
+    "despikers incl. designed exact ties; a record with a time exactly 3 sigma from the mean. non-trivial = the case reaches a "
     "non-default branch (a tie, an out-of-range time, a clipped end band, the s=-1 branch, p>1 and q>1, a shifted or "
     "unaligned time base, ...); distinct by the canonical input"
 )
@@ -106,27 +134,43 @@ ASSUMPTIONS = [
     "float arithmetic on the generated dyadic times is exact (differences and comparisons of multiples of 2^-8 below 2^12)",
     "psd inputs are positive, frequencies strictly increasing (the documented domain of area/interp/rescale); a scale that is "
     "not linear is read as logarithmic and must be positive",
-    "fixtime is modelled for a numeric sr, delspikes=False, base=None, negmethod='sort' with distinct times; records whose "
-    "time lies within 1e-8 (relative, squared) of the 3-sigma outlier threshold are skipped and counted",
+    "fixtime is modelled for negmethod='sort' with distinct times and sr > 0 (sr=None prompts the user: not modelled); records "
+    "whose time lies within 1e-8 (relative, squared) of the 3-sigma outlier threshold are skipped and counted unless the float "
+    "statistics are exact (the designed tie record); with a sample rate that is not a dyadic number the time base is compared "
+    "at 1e-9*dt and a case is skipped when a rounding (L, base), a turning-point test or a nearest/previous-sample decision lies "
+    "within 1e-9 of a tie; sigma, threshold_sigma >= 0 for the despikers; despiking with no positive threshold on windows that "
+    "are not 2^k + 1 points long is skipped on disagreement (flat stretches are decided by rounding noise, exactly 0 > 0); "
+    "_simple_filter on exactly flat survivors is outside the model (the code's decision is made by the rounding of 1/n); "
+    "despike(exclude_point='last') does not terminate on some records (a spike in the first sample): guarded by a 2-3 s limit, "
+    "counted, and the model's fuel runs out on the same inputs",
     "get_freq_oct inputs whose trimming decision lies within 1e-9 of a band centre/edge are skipped and counted",
 ]
 PARTIAL = (
     "partial (accuracy): Lanczos interpolation accuracy vs pts and anti-aliasing are measured by the oracle, not proved; "
-    "upsample_keeps_samples_full and constants_reproduced are proved for the whole modelled pipeline over the reals - the "
-    "Kaiser window is an input (hypothesis: centre value 1) and float round-off (e.g. mean of a constant not exactly the "
-    "constant) is measured only; storage types (integer, float32, lists) are covered by correspondence/oracle only, the "
-    "model works on numbers; fixtime: the time base is modelled for numeric sr / delspikes=False / base=None "
-    "(tnew_uniform: exact arithmetic progression, length, end rule) - not proved: that _mk_initial_tnew never raises on "
-    "sorted input with >= 2 samples and a bound on the alignment shift delt (both measured exactly by correspondence); "
-    "sr='auto' (sample-rate statistics), despiking and `base` are outside the model; the outlier-time test is decided "
-    "exactly in the model ((t-mean)^2 > 9 var), the code uses float mean/std: near ties are skipped; np.mean's division in "
-    "delt is exact in the model, rounded in the code (compared at 1e-9*dt when delt is not dyadic); rescale: the edge "
-    "partition is proved per branch (edges_partition_linear/_linear_tolerance/_log, edges_dispatch), the log branch's sqrt "
-    "is tied numerically; get_freq_oct: band relations are proved for whatever is returned (freq_oct_bands), the trimming "
-    "rules and the band count (floor/log2) are tied numerically and checked by the oracle, not proved; psd2time's "
-    "mean-square conservation (Parseval), psdmod = max of Welch slices and proc_psd_spec's NaN rule are oracle checks only; "
-    "area's remaining |s+1| < 1e-8 branch is proved to be within the relative amount |s+1|*ln(f2/f1) of the integral, not "
-    "equal to it (`area_segment_tolerance_band_inexact`), so area_is_integral_of_interpolant carries the slope hypothesis"
+    "resample: gcd reduction, length, decimation (every q'-th filtered sample), retained samples, constants (DC gain 1) and the "
+    "sum of the taps that meet original samples are proved - the sums of the other polyphase branches are only approximately 1 "
+    "(measured); the Kaiser window is an input (hypothesis: centre value 1); storage types are modelled (dtype flow, "
+    "resample_storage_types) and tied by the dtype stream, single-precision rounding is measured only; float round-off "
+    "everywhere is measured, never proved. fixtime: every option is inside the executable model fixtimeFull and tied exactly "
+    "end to end; PROVED about its parts: auto_sr_def, outtimes_removed_exactly (strict 3-sigma), dropouts_marked, "
+    "mk_initial_tnew_total, alignment_shift_bound (length-mismatch branch; in the mean branch the shift is NOT bounded by half a "
+    "step: proved counterexample 9/13), base_shift_hits_base, del_loners_only_adds, fixtime_idempotent + "
+    "uniform_has_no_outlier_times, tnew_uniform, nearest/previous rules - NOT proved: a single end-to-end theorem about the "
+    "composed routine (the composition is tied by correspondence), the exact fill rule of _del_loners (tied; only 'never clears "
+    "a flag' is proved), value_counts' first-seen tie order (modelled, re-measured), termination of the despike sweeps (the models "
+    "carry fuel; despike(exclude_point='last') really does not terminate on some records), full idempotence of the despikers (false: "
+    "min_limit is recomputed; despike_idempotent_partial states what holds); sr=None (interactive) is outside the model; `getall` / "
+    "ndarray-vs-tuple packaging is compared, not modelled. rescale: conservation is proved for any contiguous input edges "
+    "(rescale_conserves_area: uniform, log-spaced or arbitrary grids through the exactly-linear and the logarithmic edge rule) "
+    "and a constant PSD is proved unchanged inside the input range; with a scale that is linear only within the 1e-12 tolerance "
+    "the bands overlap/gap by < 1e-12|Df| (edges_partition_linear_tolerance) and conservation is numeric; with extendends=True "
+    "the sum form is proved only when no band sticks out (otherwise: rescale_conserves_extendends, per band); the log branch's "
+    "sqrt is tied numerically. get_freq_oct: trimming rules, band relations, band numbering and count (= number of untrimmed "
+    "bands passing the inclusive test) are proved; a closed form of the count in floor/ceil of the logarithms is not; "
+    "log2/log10/pow are numeric kernels (near ties skipped). psd2time's mean-square conservation (Parseval) and "
+    "proc_psd_spec's NaN rule are oracle checks only; psdmod: only its last step (row maximum) is modelled, Welch/waterfall are "
+    "library kernels; area's remaining |s+1| < 1e-8 branch is within |s+1|*ln(f2/f1) of the integral, not equal "
+    "(area_segment_tolerance_band_inexact), so area_is_integral_of_interpolant carries the slope hypothesis"
 )
 MANIFEST = {
     "level_text": "Proof (Lean 4, kernel-checked, standard axioms only) about executable models of the searchsorted-"
@@ -144,18 +188,35 @@ MANIFEST = {
     "means, end centres geometric means of their edges; extendends clips at the band EDGE), of area (Mathlib "
     "integral_rpow per segment; area(spec) = interval integral of the whole log-log interpolant psd.interp over [f0, fn]: "
     "area_is_integral_of_interpolant; additivity; tolerance band bounded), of log-log interpolation (piecewise power law; "
-    "exact at break points) and of get_freq_oct's bands (FU/FL = 2^(1/n) or 10^(3/(10n)), F = sqrt(FL*FU), contiguous). "
+    "exact at break points; straight line in log-log: interp_log_is_loglog_line) and of get_freq_oct (FU/FL = 2^(1/n) or "
+    "10^(3/(10n)), F = sqrt(FL*FU), contiguous; the returned run holds exactly the bands passing the inclusive trimming test: "
+    "freq_oct_trim_rules, freq_oct_count; exact vs preferred scale: freq_oct_exact_vs_preferred). Added with the complete "
+    "fixtime model: what sr='auto' chooses (most frequent rounded rate, resolution 5 or tenths, else nearest multiple to the "
+    "average: auto_sr_def), who survives the cleaning (outtimes_removed_exactly: strict 3-sigma test; dropouts_marked), "
+    "_mk_initial_tnew never raises on >= 2 sorted samples (mk_initial_tnew_total), the alignment shift is within half a step in "
+    "the length-mismatch branch and provably not in the mean branch, `base` moves the grid by <= half a step onto base + k/sr, "
+    "_del_loners never clears a flag, fixing a fixed record changes nothing (fixtime_idempotent, uniform_has_no_outlier_times); "
+    "the despikers' decision is `delta > fmax(sigma*std, min_limit)` strictly (despike_decision_rule over the reals), a signal "
+    "with no such point is returned unchanged (despike_fixed_point, despike_idempotent_partial); rescale_conserves_area, "
+    "rescale_constant_psd_unchanged; psdmod's row maximum bounds every slice and their average; resample: common factors of p, q "
+    "drop out, output sample j is filtered sample j*q', DC gain 1, every buffer is float64 (resample_storage_types); the "
+    "literals / defaults / comparison operators of the source are the models' (Generated/C19Consts.lean + decide obligations). "
     "Models are tied to /repo by exact correspondence on dyadic inputs (index rules, bookkeeping, time base, lengths, "
     "linear band edges, fixtime end to end) and numeric correspondence (1e-9) for area/interp/rescale/edges/"
-    "get_freq_oct/resample. Partial: interpolation accuracy of the Lanczos filter, fixtime's sample-rate heuristics and "
-    "despiking, get_freq_oct's trimming arithmetic and psd2time's Parseval identity are measured, not proved.",
+    "get_freq_oct/resample; fixtime with every option, _sr_calcs, _del_loners and the despikers exactly (rational models, "
+    "designed ties included). Partial: interpolation accuracy of the Lanczos filter, float round-off, the composition of "
+    "fixtime's proved parts, termination of the despike sweeps and psd2time's Parseval identity are measured / tied, not proved.",
     "level_note": "Trusted: Lean kernel; propext, Classical.choice, Quot.sound; the Python harness; numpy/scipy "
     "kernels as listed in trusted_base; numba variants and rescale's nested edge code are source text only. Tied or "
     "measured only (not proved): float round-off everywhere, storage dtypes, the Kaiser window values, the 3-sigma "
-    "statistics in floating point, _mk_initial_tnew's totality and shift bound, get_freq_oct's trimming, psd2time, psdmod.",
+    "statistics in floating point, value_counts' tie order, the fill rule of _del_loners, the despike sweeps beyond their first "
+    "pass (exact streams only), get_freq_oct's log kernels, psd2time, Welch/waterfall inside psdmod. Observation (not a property "
+    "violation): despike(exclude_point='last') does not terminate when the first sample is a spike; sr='auto' works to a "
+    "resolution set by the slowest rate present (uniform 8 Hz data -> 10 Hz; auto_sr_uniform_8hz_gives_10).",
     "technique": "Lean 4 proof (list induction for index rules, cumulative area, convolution and bookkeeping; Mathlib "
-    "interval integrals for area; rpow for octave bands) + exact/numeric differential correspondence with pyyeti.dsp / "
-    "pyyeti.psd + ast extraction of nested source text",
+    "interval integrals for area; rpow/logb for octave bands; real square roots for the despike rule; closed-form sums for "
+    "the 3-sigma bound of a uniform grid) + exact/numeric differential correspondence with pyyeti.dsp / pyyeti.psd + ast "
+    "extraction of nested source text + ast translator of constants / operators with decide obligations",
 }
 
 # ---------------------------------------------------------------------------------------
@@ -1513,8 +1574,7 @@ def _corr_fixfull(ctx, drv):
     # if the model's own structure changes the case sits on a rounding tie and is skipped
     req2 = []
     for (c, r, m, ts_, ys_, sv, niter, bad, rq) in again:
-        den = m["sr"].denominator
-        if den & (den - 1) == 0:
+        if _dyadic_rate(m["sr"]):
             continue
         for f in (Fraction(1) + Fraction(1, 10 ** 11), Fraction(1) - Fraction(1, 10 ** 11)):
             parts = rq.split("|")
@@ -1525,16 +1585,24 @@ def _corr_fixfull(ctx, drv):
     rep2 = drv.ask(req2)
     k2 = 0
     for (c, r, m, ts_, ys_, sv, niter, bad, rq) in again:
-        den = m["sr"].denominator
-        if den & (den - 1) != 0:
+        if not _dyadic_rate(m["sr"]):
             a, b = _parse_fxt(rep2[k2]), _parse_fxt(rep2[k2 + 1])
             k2 += 2
             def shape(x):
-                return x if isinstance(x, str) else (len(x["tnew"]), x["src"], x["tp"], x["alldrops"], x["warn"])
+                # the alignment offset in steps (6 decimals): a tie of _get_prev_index / of a rounding moves it by a whole step
+                off = round(float((x["tnew"][0] - x["shift"]) * x["sr"]), 6) if (not isinstance(x, str) and x["tnew"]) else None
+                off = None if off is None else round(off - math.floor(off), 5)
+                return x if isinstance(x, str) else (len(x["tnew"]), x["src"], x["tp"], x["alldrops"], x["warn"], off)
             if not (shape(a) == shape(b) == shape(m)):
                 ctx.skip("fixtime: a decision within rounding of a tie (sample rate not dyadic)")
                 continue
         ctx.disagree(bad[0], c, bad[1], bad[2])
+
+
+def _dyadic_rate(sr):
+    """is the time step 1/sr (and sr) a dyadic number? (then the code's arithmetic on the dyadic test records is exact)"""
+    n, d = sr.numerator, sr.denominator
+    return n > 0 and (n & (n - 1)) == 0 and (d & (d - 1)) == 0
 
 
 def _cmp_fixfull(ctx, c, r, m, ts_, ys_, niter):
